@@ -106,35 +106,39 @@ def run(chk):
     # (name, constants, collect action coverage?)   coverage costs ~1.6x, so only the run that reaches every action has it
     if quick:
         designs = [('A', (True, 1, ['single'], 0, 'whole', 1, 1, False, ALLM), False),
-                   ('B', (True, 0, G.ALL_SHAPES, 1, 'edge', 1, 1, True, ['rest']), False),
+                   ('B', (True, 0, ['single', 'multi_dig', 'lf', 'cr_code', 'other'], 1, 'edge', 1, 1, False, ['rest']), False),
                    ('C', (True, 0, ['single'], 0, 'whole', 2, 1, True, ['file']), True)]
     else:
         designs = [('A', (True, 2, ['single'], 0, 'whole', 1, 1, False, ALLM), False),
                    ('B', (True, 0, G.ALL_SHAPES, 1, 'all', 1, 1, True, ALLM), False),
-                   ('B2', (True, 0, ['single', 'multi_sp', 'other'], 2, 'edge', 1, 2, True, ['rest', 'listing']), False),
+                   ('B2', (True, 0, ['single', 'other'], 2, 'edge', 1, 2, True, ['rest', 'listing']), False),
                    ('C', (True, 0, ['single', 'multi'], 1, 'whole', 2, 1, True, ['file', 'listing']), True)]
     if os.environ.get('C17_NO_DESIGN'):      # development aid for mutant runs: the design checks do not depend on the code
         designs = []
     pool = ThreadPoolExecutor(max_workers=6)
-    dfut = [(name, c, cov, pool.submit(run_design, c, 2 if quick else 4, 300 if quick else 850, cov))
+    dfut = [(name, c, cov, pool.submit(run_design, c, 3 if quick else 4, 300 if quick else 850, cov))
             for name, c, cov in designs]
     a0 = (False, 1, ['single'], 0, 'whole', 1, 1, False, ALLM)
     a0fut = pool.submit(run_design, a0, 1, 300, False)
 
     # ---------------- 2. scenarios
-    gen_ex = pool.submit(G.tlc_scenarios, reject, 0, ['single'], 0, 'whole', 1, 1, True, ALLM, None, 0, 600, 2)
-    gen_sim = pool.submit(G.tlc_scenarios, reject, 1, G.ALL_SHAPES, 3, 'all', 2, 2, True, ALLM,
-                          300 if quick else 12000, chk.seed + 1, 800)
+    if quick:
+        gen_ex = pool.submit(G.tlc_scenarios, reject, 0, ['single'], 0, 'whole', 1, 1, False, ['listing'], None, 0, 600, 2)
+    else:
+        gen_ex = pool.submit(G.tlc_scenarios, reject, 0, ['single'], 0, 'whole', 1, 1, True, ALLM, None, 0, 600, 2)
+    nsim, per = (1, 250) if quick else (3, 1200)
+    gen_sims = [pool.submit(G.tlc_scenarios, reject, 1, G.ALL_SHAPES, 3, 'all', 2, 2, True, ALLM, per,
+                            chk.seed * 100 + 1 + j, 800) for j in range(nsim)]
     scen = []    # (origin, scenario)
-    for sc in G.url_scenarios(1 if quick else 3):
+    for sc in G.url_scenarios(2 if quick else 3):
         scen.append(('url', sc))
     if quick:
-        steps_of = lambda n: sorted({0, n - 3, n - 1})     # greeting, PASV, closing reply
+        steps_of = lambda n: sorted({0, n - 1})     # greeting, closing reply
         cut_shapes = G.ALL_SHAPES
     else:
         steps_of = lambda n: range(n)
         cut_shapes = G.ALL_SHAPES
-    for sc in G.cut_scenarios(cut_shapes, steps_of, all_compositions_upto=0 if quick else 11):
+    for sc in G.cut_scenarios(cut_shapes, steps_of, all_compositions_upto=0 if quick else 8):
         scen.append(('cut', sc))
     _dbg('enumerated', len(scen))
     ex, exres = gen_ex.result()
@@ -142,13 +146,16 @@ def run(chk):
     tlc.require_ok(exres, 'FtpControlGen exhaustive')
     chk.extra['tlc_enumerated_strategies'] = len(ex)
     if quick:
-        ex = rng.sample(ex, min(len(ex), 400))
+        ex = rng.sample(ex, min(len(ex), 300))
     scen += [('tlc-exhaustive', sc) for sc in ex]
-    sim, simres = gen_sim.result()
+    sim = []
+    for f in gen_sims:
+        part, simres = f.result()
+        _dbg('gen_sim', len(part), simres['wall_s'])
+        if not part:
+            raise tlc.TLCError('FtpControlGen -simulate produced no script\n' + simres['out'][-3000:])
+        sim += part
     chk.extra['tlc_simulated_behaviours'] = len(sim)
-    _dbg('gen_sim', len(sim), simres['wall_s'])
-    if not sim:
-        raise tlc.TLCError('FtpControlGen -simulate produced no script\n' + simres['out'][-3000:])
     scen += [('tlc-simulate', sc) for sc in sim]
 
     # execute; runs that differ only in the cuts share the reference run (whole pieces)
@@ -183,7 +190,7 @@ def run(chk):
                + 'CONSTRAINT Record\nPOSTCONDITION Post\nCHECK_DEADLOCK FALSE\n')
     traces = [t for (_, _, t) in items]
     strict_idx = [i for i, (o, _, _) in enumerate(items) if o != 'direct']
-    nchunks = 3 if quick else 6
+    nchunks = 4 if quick else 6
     size = max(1, (len(traces) + nchunks - 1) // nchunks)
 
     def mon(part):
